@@ -124,6 +124,93 @@ fn transition<const D: usize>(rng: &mut Rng) -> String {
         scripts.iter().map(|s| format!("{{\"polls\":{:?},\"refuse\":{},\"absent\":{}}}", s.polls, s.refuse, s.absent)).collect::<Vec<_>>().join(","))
 }
 
+/// MainDevice::wait_for_state: the broadcast wait.  Every device has a script of AL status bytes;
+/// the network ORs them into the BRD answer and counts the devices that are present.
+fn waitall(rng: &mut Rng) -> String {
+    vharness::clock::reset();
+    let storage: &'static PduStorage<4, 64> = Box::leak(Box::new(PduStorage::<4, 64>::new()));
+    let (mut tx, mut rx, pl) = storage.try_split().unwrap();
+    let limit = rng.range(3, 12) as usize;
+    let dt_us = 100u64;
+    let timeouts = Timeouts { state_transition: Duration::from_micros(dt_us * limit as u64), wait_loop_delay: Duration::from_millis(0), ..Timeouts::default() };
+    let md: &'static MainDevice<'static> = Box::leak(Box::new(MainDevice::new(pl, timeouts, MainDeviceConfig::default())));
+    let n = match rng.below(4) { 0 => rng.below(3) as usize, 1 => rng.range(1, 6) as usize, _ => rng.range(1, 20) as usize };
+    let (target, want) = *rng.pick(&[(1u8, SubDeviceState::Init), (2, SubDeviceState::PreOp), (4, SubDeviceState::SafeOp), (8, SubDeviceState::Op), (4, SubDeviceState::SafeOp), (8, SubDeviceState::Op)]);
+    let prev: u8 = match target { 1 => *rng.pick(&[2u8, 4, 8]), 2 => 1, 4 => *rng.pick(&[2u8, 8]), _ => 4 };
+    let quiet = rng.chance(1, 2);
+    let mut scripts: Vec<Script> = (0..n).map(|_| {
+        let kind = if quiet { 2 + rng.below(2) * 6 } else { rng.below(14) };
+        let polls = match kind {
+            0 => vec![prev],                                // stalls
+            1 => vec![target, prev],                        // accepts then falls back
+            2 => { let k = rng.below(4) as usize; let mut v = vec![prev; k]; v.push(target); v }
+            3 => { let mut v = vec![prev; 13]; v.push(target); v }
+            4 => vec![0x10 | prev],                         // error flag, old state
+            5 => vec![0x10 | target],                       // requested state WITH error flag
+            6 => { let k = rng.below(3) as usize; let mut v = vec![prev; k]; v.push(0x10 | target); v }
+            9 => vec![0x20 | target],                       // device identification bit set, no error
+            _ => vec![target],
+        };
+        Script { polls, refuse: false, absent: kind == 7 && rng.chance(1, 2), polled: 0 }
+    }).collect();
+    // the MainDevice's own count of devices: normally right, sometimes one more (a device vanished)
+    let counted = if rng.chance(1, 10) { n + 1 } else { n };
+    md.verif_set_network(counted as u16, 0);
+    let mut answers: Vec<String> = Vec::new();
+    let mut frames: Vec<String> = Vec::new();
+    let mut seen: Vec<Vec<u8>> = Vec::new();
+    let mut wire = |f: &[u8]| -> Option<Vec<u8>> {
+        vharness::clock::advance(dt_us);
+        let mut r = f.to_vec();
+        r[6] |= 2;
+        let pos = 16;
+        let lf = u16::from_le_bytes([f[pos + 6], f[pos + 7]]);
+        let len = (lf & 0x7ff) as usize;
+        let cmd = f[pos];
+        let adp = u16::from_le_bytes([f[pos + 2], f[pos + 3]]);
+        let ado = u16::from_le_bytes([f[pos + 4], f[pos + 5]]);
+        let mut data = f[pos + 10..pos + 10 + len].to_vec();
+        let mut wkc = 0u16;
+        match (cmd, ado) {
+            (7, 0x0130) => {
+                let mut round = Vec::new();
+                for s in scripts.iter_mut() {
+                    if s.absent { continue; }
+                    let v = s.polls[s.polled.min(s.polls.len() - 1)];
+                    s.polled += 1;
+                    data[0] |= v;
+                    wkc += 1;
+                    round.push(v);
+                }
+                seen.push(round);
+                frames.push("[[1]]".to_string());
+            }
+            (4, 0x0134) => {
+                let idx = adp.wrapping_sub(0x1000) as usize;
+                if idx < scripts.len() && !scripts[idx].absent { data = vec![0x11, 0x00]; wkc = 1; }
+                frames.push(format!("[[2,{}]]", adp));
+            }
+            _ => { frames.push(format!("[[9,{},{}]]", cmd, ado)); }
+        }
+        r[pos + 10..pos + 10 + len].copy_from_slice(&data);
+        r[pos + 10 + len] = wkc as u8;
+        r[pos + 11 + len] = (wkc >> 8) as u8;
+        answers.push(format!("[[{},{}]]", bytes_json(&data), wkc));
+        Some(r)
+    };
+    let mut log = Vec::new();
+    let r = net::run(md.wait_for_state(want), &mut tx, &mut rx, &mut wire, &mut log, 4000);
+    let res = match r {
+        RunEnd::Done(Ok(_)) => "\"res\":\"Ok\"".to_string(),
+        RunEnd::Done(Err(e)) => format!("\"res\":\"Err\",\"err\":\"{:?}\"", e),
+        _ => "\"res\":\"HANG\"".to_string(),
+    };
+    let elapsed = vharness::clock::now_us();
+    format!("{{\"kind\":\"waitall\",\"n\":{},\"counted\":{},\"desired\":{},\"limit\":{},\"answers\":[{}],\"frames\":[{}],{},\"elapsed_us\":{},\"timeout_us\":{},\"seen\":{:?},\"scripts\":[{}]}}",
+        n, counted, target, limit, answers.join(","), frames.join(","), res, elapsed, dt_us * limit as u64, seen,
+        scripts.iter().map(|s| format!("{{\"polls\":{:?},\"absent\":{}}}", s.polls, s.absent)).collect::<Vec<_>>().join(","))
+}
+
 fn main() {
     let args: Vec<String> = std::env::args().collect();
     let seed: u64 = args[1].parse().unwrap();
@@ -132,6 +219,8 @@ fn main() {
     for k in 0..n {
         if k % 2 == 0 {
             println!("{}", summaries(&mut rng, k / 2));
+        } else if k % 4 == 3 {
+            println!("{}", waitall(&mut rng));
         } else {
             let line = match rng.below(16) {
                 12 => transition::<28>(&mut rng),     // no room for a state request at all
